@@ -42,6 +42,7 @@ import (
 	"github.com/keep-network/keep-core/pkg/protocol/group"
 	"github.com/keep-network/keep-core/pkg/protocol/inactivity"
 	"github.com/keep-network/keep-core/pkg/tbtc"
+	"github.com/keep-network/keep-core/pkg/tecdsa/dkg"
 )
 
 // ---------------------------------------------------------------------------
@@ -290,6 +291,11 @@ func exec(op string) (string, string) {
 			return "bad-op", "bad"
 		}
 		return execDkg(f)
+	case "dkgr":
+		if len(f) != 9 {
+			return "bad-op", "bad"
+		}
+		return execDkgR(f)
 	case "inact":
 		if len(f) != 10 {
 			return "bad-op", "bad"
@@ -307,15 +313,75 @@ func keyTags(x, y *big.Int) []string {
 }
 
 func execDkg(f []string) (string, string) {
-	chainID := parseHexBig(f[1])
-	startBlock := hx.AtoU64(f[2])
-	submitter := group.MemberIndex(hx.Atoi(f[3]))
-	x, y := parseHexBig(f[4]), parseHexBig(f[5])
 	operating, misbehaved := parseIdx(f[6]), parseIdx(f[7])
-	sups := parseSupporters(f[8])
-	ids := parseIDs(f[9])
+	return runDkg("dkg", f[1], f[2], f[3], f[4], f[5],
+		func() []group.MemberIndex { return cpIdx(operating) },
+		func() []group.MemberIndex { return cpIdx(misbehaved) },
+		f[8], f[9], nil)
+}
 
-	tags := []string{}
+// execDkgR derives the operating / misbehaved lists the way the client does: from a dkg.Result
+// whose group had members marked inactive (`i<idx>`) and disqualified (`d<idx>`) in the given
+// order — exactly what dkgResultSigner.SignResult and dkgResultSubmitter.SubmitResult pass on
+// (result.MisbehavedMembersIndexes(), result.Group.OperatingMemberIndexes()).
+//
+//	dkgr <chainIdHex> <startBlock> <submitter> <Xhex> <Yhex> <marks> <supporters> <ids>
+func execDkgR(f []string) (string, string) {
+	ids := parseIDs(f[8])
+	g := group.NewGroup(0, len(ids))
+	var extra []string
+	anyIA, anyDQ := false, false
+	for _, m := range hx.SplitList(f[6]) {
+		if len(m) < 2 {
+			panic("harness: bad mark " + m)
+		}
+		v, err := strconv.ParseUint(m[1:], 10, 8)
+		if err != nil {
+			panic("harness: bad mark " + m)
+		}
+		before := len(g.OperatingMemberIndexes())
+		switch m[0] {
+		case 'i':
+			g.MarkMemberAsInactive(group.MemberIndex(v))
+			if len(g.OperatingMemberIndexes()) < before {
+				anyIA = true
+			}
+		case 'd':
+			g.MarkMemberAsDisqualified(group.MemberIndex(v))
+			if len(g.OperatingMemberIndexes()) < before {
+				anyDQ = true
+			}
+		default:
+			panic("harness: bad mark " + m)
+		}
+	}
+	if anyIA {
+		extra = append(extra, "ia")
+	}
+	if anyDQ {
+		extra = append(extra, "dq")
+	}
+	result := &dkg.Result{Group: g}
+	return runDkg("dkgr", f[1], f[2], f[3], f[4], f[5],
+		func() []group.MemberIndex { return result.Group.OperatingMemberIndexes() },
+		func() []group.MemberIndex { return result.MisbehavedMembersIndexes() },
+		f[7], f[8], extra)
+}
+
+func runDkg(
+	kind, fChain, fStart, fSub, fX, fY string,
+	operatingFn, misbehavedFn func() []group.MemberIndex,
+	fSups, fIDs string, extraTags []string,
+) (string, string) {
+	chainID := parseHexBig(fChain)
+	startBlock := hx.AtoU64(fStart)
+	submitter := group.MemberIndex(hx.Atoi(fSub))
+	x, y := parseHexBig(fX), parseHexBig(fY)
+	operating, misbehaved := operatingFn(), misbehavedFn()
+	sups := parseSupporters(fSups)
+	ids := parseIDs(fIDs)
+
+	tags := append([]string{}, extraTags...)
 	tags = append(tags, keyTags(x, y)...)
 	if len(misbehaved) == 0 {
 		tags = append(tags, "mis0")
@@ -334,7 +400,7 @@ func execDkg(f []string) (string, string) {
 	pub := &ecdsa.PublicKey{Curve: crypto.S256(), X: x, Y: y}
 	tc := ethereum.VerifNewTbtcChain(chainID, operatorKey(0))
 
-	hash, err := tc.CalculateDKGResultSignatureHash(pub, cpIdx(misbehaved), startBlock)
+	hash, err := tc.CalculateDKGResultSignatureHash(pub, misbehavedFn(), startBlock)
 	if err != nil {
 		return "err:hash", "errhash"
 	}
@@ -366,11 +432,11 @@ func execDkg(f []string) (string, string) {
 	}
 
 	res, err := tc.AssembleDKGResult(
-		submitter, pub, cpIdx(operating), cpIdx(misbehaved), sigs,
+		submitter, pub, operatingFn(), misbehavedFn(), sigs,
 		&tbtc.GroupSelectionResult{OperatorsIDs: ids},
 	)
 	if err != nil {
-		return errClass(err), strings.Join(append(append([]string{"dkg"}, tags...), "err"), "+")
+		return errClass(err), strings.Join(append(append([]string{kind}, tags...), "err"), "+")
 	}
 	sigTok, rec := describeSignatures(res.Signatures, res.SigningMembersIndexes, sigs, names, res.Members, hash[:])
 	obs := fmt.Sprintf("ok sub=%d key=%s mis=%s signers=%s sigs=%s members=%s mh=%s h=%s rec=%s wid=%s",
@@ -384,7 +450,7 @@ func execDkg(f []string) (string, string) {
 	} else {
 		tags = append(tags, "offquorum")
 	}
-	return obs, strings.Join(append([]string{"dkg"}, tags...), "+")
+	return obs, strings.Join(append([]string{kind}, tags...), "+")
 }
 
 func execInact(f []string) (string, string) {
@@ -608,6 +674,8 @@ func gen(r *hx.Rng, n int, tier string) []string {
 	for i := 0; i < n; i++ {
 		if i%4 == 3 {
 			ops = append(ops, genInact(r, specials, tier))
+		} else if i%4 == 1 {
+			ops = append(ops, genDkgR(r, specials, tier))
 		} else {
 			ops = append(ops, genDkg(r, specials, tier))
 		}
@@ -699,6 +767,64 @@ func genDkg(r *hx.Rng, specials []keyPoint, tier string) string {
 	ids := genIDs(r, N)
 	return fmt.Sprintf("dkg %s %d %d %s %s %s %s %s %s", genChainID(r), start, r.Range(1, N), x, y,
 		intsToStr(opr), intsToStr(mis), sups, hx.JoinInts(ids))
+}
+
+// genDkgR: a DKG result whose group was marked inactive / disqualified in some order (with
+// repeated and conflicting marks, which the group ignores).
+func genDkgR(r *hx.Rng, specials []keyPoint, tier string) string {
+	N := 100
+	if r.Chance(1, 5) {
+		N = r.Range(1, 110)
+	}
+	k := 0
+	switch c := r.Intn(10); {
+	case c < 1:
+		k = 0
+	case c < 8:
+		k = r.Range(1, 10)
+	default:
+		k = r.Range(11, 40)
+	}
+	if k > N-1 {
+		k = N - 1
+	}
+	perm := r.Perm(N)
+	var marks []string
+	marked := map[int]bool{}
+	mode := r.Intn(4) // 0 inactive only, 1 disqualified only, 2/3 mixed
+	for i := 0; i < k; i++ {
+		idx := perm[i] + 1
+		dq := mode == 1 || (mode >= 2 && r.Bool())
+		if dq {
+			marks = append(marks, fmt.Sprintf("d%d", idx))
+		} else {
+			marks = append(marks, fmt.Sprintf("i%d", idx))
+		}
+		marked[idx] = true
+		if r.Chance(1, 6) { // a second, ignored, mark of an already marked member
+			marks = append(marks, fmt.Sprintf("%c%d", hx.Pick(r, []byte{'i', 'd'}), perm[r.Intn(i+1)]+1))
+		}
+		if r.Chance(1, 30) { // a mark outside the group
+			marks = append(marks, fmt.Sprintf("%c%d", hx.Pick(r, []byte{'i', 'd'}), hx.Pick(r, []int{0, N + 1, 255})))
+		}
+	}
+	var cand []int
+	for i := 1; i <= N; i++ {
+		if !marked[i] {
+			cand = append(cand, i)
+		}
+	}
+	cnt := r.Range(51, 100)
+	if r.Chance(1, 10) {
+		cnt = r.Range(0, 50)
+	}
+	if tier == "quick" && cnt > 70 && r.Chance(2, 3) {
+		cnt = r.Range(51, 70)
+	}
+	sups := genSupporters(r, cand, N, cnt, tier)
+	x, y := genKey(r, specials)
+	return fmt.Sprintf("dkgr %s %d %d %s %s %s %s %s", genChainID(r), r.U64()>>uint(24+r.Intn(30)), r.Range(1, N),
+		x, y, hx.JoinStrs(marks), sups, hx.JoinInts(genIDs(r, N)))
 }
 
 func genInact(r *hx.Rng, specials []keyPoint, tier string) string {
